@@ -48,7 +48,7 @@ static double from_bits(const std::string& s) {
 
 static std::string num(const double d) {
   if (std::isnan(d)) return "nan";
-  if (std::isinf(d)) return d > 0 ? "inf" : "-inf";
+  if (std::isinf(d)) return d > 0 ? "inf" : "-1e308";  // see `force`
   char buf[64];
   std::snprintf(buf, sizeof buf, "%.17g", d);
   return buf;
@@ -81,6 +81,12 @@ static std::string write_file(const char* const name,
 static bool same_bits(const std::vector<double>& a, const std::vector<double>& b) {
   return a.size() == b.size() &&
          (a.empty() || std::memcmp(a.data(), b.data(), a.size() * sizeof(double)) == 0);
+}
+
+static void force(tfel::check::Column& c, const std::vector<double>& v) {
+  for (std::size_t i = 0; i != v.size() && i != c.getValues().size(); ++i) {
+    if (std::isinf(v[i]) && v[i] < 0) c.setValue(static_cast<unsigned>(i), v[i]);
+  }
 }
 
 static std::string failed_lines(const std::string& log) {
@@ -127,6 +133,10 @@ int main(const int argc, const char* const* const argv) {
         auto c2 = std::make_shared<tfel::check::Column>("v");
         c1->setFilename(fa);
         c2->setFilename(fb);
+        // "-inf" is not a token TextData can read (it can only arise from a computed column):
+        // such entries are written as a placeholder and set through Column::setValue
+        force(*c1, a);
+        force(*c2, b);
         if (!same_bits(c1->getValues(), a) || !same_bits(c2->getValues(), b)) {
           std::cout << "io-mismatch\n";  // the text round trip changed a value: not a verdict
           continue;
